@@ -18,8 +18,8 @@ For WHICH documents: `WF d` — the documents the constructors and the parser le
 * reading-order indexes are distinct; a region-like document with a reading order lists all
   its text regions in it and (except for a page, which does not sort) holds them in that order;
 * table rows are non-empty, their cells share the row index and have a column index, the
-  number of column slots is what the row constructor and the enclosing region's padding produce;
-  table cell lines have a text;
+  number of column slots is what the row constructor and the enclosing region's padding produce
+  (table cell lines may lack a text: the cell value joins the texts that are present);
 * attributes kept under a truthiness guard (`orientation`, `xheight`, `cornerpoints`) are truthy
   or `None` (the JSON view cannot tell `0.0` from `None`: the code only ever tests them for
   truthiness, and the harness compares them up to that).
@@ -349,7 +349,7 @@ theorem C06_constructed_wf_line (id ty md : PyVal) (coords baseline : Option Pts
 theorem C06_constructed_wf_table (id : PyVal) (ts : List String) (m : Meta) (coords : Option Pts) :
     (∀ (row : PyVal) (col : Option Int) (cellSpan rowSpan header cornerpoints orientation : PyVal) (lines : List Line),
       coords ≠ some [] → canon cornerpoints = true → canon orientation = true →
-      (∀ l ∈ lines, l.ok = true ∧ l.text.isSome = true) →
+      (∀ l ∈ lines, l.ok = true) →
       (Cell.build id ts m coords row col cellSpan rowSpan header cornerpoints orientation lines).ok = true)
     ∧ (∀ (n : Nat) (orientation : PyVal) (cells : List Cell), coords ≠ some [] → canon orientation = true →
         cells.isEmpty = false → sameRow cells = true → (∀ c ∈ cells, c.ok = true ∧ c.col.isSome = true) →
